@@ -4,6 +4,7 @@ mod collide;
 mod craft;
 mod fuzz;
 mod fw;
+mod hostile_alloc;
 mod job;
 mod pool;
 mod props;
@@ -17,6 +18,9 @@ mod svgcheck;
 mod symbol;
 
 use fw::{Ctx, Tier};
+
+#[global_allocator]
+static ALLOCATOR: hostile_alloc::Hostile = hostile_alloc::Hostile;
 
 fn usage() -> ! {
     eprintln!("usage: vcheck selfcheck [--full] | vcheck run <ID> [--tier quick|thorough] | vcheck replay <file>");
